@@ -205,7 +205,9 @@ def view_recipes():
         out.append((f"slice-of-slice[{a}:{b}:{c}]", "V", ["slice", ["slice", _v, None, None, -1], a, b, c]))
     for M, nm, (r, c) in [(_A, "A", (2, 3)), (_S, "S", (3, 3)), (["T", _A], "A.T", (3, 2)), (["T", _S], "S.T", (3, 3)),
                           (["sub", _Q, 1, 3, 0, 2], "Q[1:3,0:2]", (2, 2)), (["T", ["sub", _Q, 0, 2, 1, 3]], "Q[0:2,1:3].T", (2, 2)),
-                          (["T", ["T", _A]], "A.T.T", (2, 3)), (["sub", ["T", _A], 0, 3, 1, 2], "A.T[0:3,1:2]", (3, 1))]:
+                          (["T", ["T", _A]], "A.T.T", (2, 3)), (["sub", ["T", _A], 0, 3, 1, 2], "A.T[0:3,1:2]", (3, 1)),
+                          (["T", ["T", _Q]], "Q.T.T", (3, 3)), (["T", _Q], "Q.T", (3, 3)), (["T", ["T", ["T", _Q]]], "Q.T.T.T", (3, 3)),
+                          (["T", ["T", ["sub", _Q, 0, 2, 1, 3]]], "Q[0:2,1:3].T.T", (2, 2))]:
         out.append((f"matrix {nm}", "M", M))
         for i in range(r):
             out.append((f"row {nm}", "V", ["row", M, i]))
